@@ -139,8 +139,15 @@ func c08(tier string) []*explore.Scenario {
 					}
 				}
 			}
+			// a strided sweep through the 6..8 digit values (complete only in the thorough tier)
+			for _, u := range []byte(c08UnitOrder) {
+				for v := int64(100000); v < 100000000; v += 4999 {
+					c08CheckLegal("C08/parser", strconv.FormatInt(v, 10)+string(u))
+					n++
+				}
+			}
 			vsched.Count("inputs", n)
-			vsched.Obs("%d boundary values", n)
+			vsched.Obs("%d boundary and strided values", n)
 		},
 	})
 	out = append(out, &explore.Scenario{
